@@ -167,7 +167,9 @@ class CmdScenario(wfscn.ProgScenario):
                         'stop %s %s' % (w[3], st)))
         if any(self._allowed(k) for k in ('rerun', 'rerun_noreset', 'skip')):
             ts = q("select id, name, state from task_executions_v2 "
-                   "where state='ERROR' order by id")
+                   "where state in (%s) order by id" % ','.join(
+                       "'%s'" % x for x in getattr(self, 'rerun_states',
+                                                   ('ERROR',))))
             for tid, tname, tstate in ts:
                 if self.only_tasks is not None and \
                         tname not in self.only_tasks:
